@@ -7,8 +7,15 @@ pub mod c03;
 pub mod c04;
 pub mod c05;
 pub mod c06;
+pub mod c07;
+pub mod c08;
+pub mod c09;
+pub mod c10;
 pub mod c15;
+#[cfg(feature = "mock")]
+pub mod c16;
 pub mod c13;
+pub mod c14;
 pub mod c12;
 pub mod c11;
 
@@ -24,6 +31,13 @@ pub fn run(ctx: &Ctx) -> Option<Report> {
         "C02" => Some(c02::run(ctx)),
         "C03" => Some(c03::run(ctx)),
         "C04" => Some(c04::run(ctx)),
+        "C08" => Some(c08::run(ctx)),
+        "C09" => Some(c09::run(ctx)),
+        "C10" => Some(c10::run(ctx)),
+        #[cfg(feature = "mock")]
+        "C16" => Some(c16::run(ctx)),
+        "C14" => Some(c14::run(ctx)),
+        "C07" => Some(c07::run(ctx)),
         _ => None,
     }
 }
